@@ -62,3 +62,32 @@ unit(id="pow.exec", src=MATH + "pow.rs", path=[("fn", "exec")], mod="pow",
          ("pow.exec.value", ["C08"],
           "exp->Int_0 >= 0 ==> r == Ok::<Variable, ExecError>(Variable::Int(wrap64(pow(base->Int_0 as int, exp->Int_0 as nat)) as i64))"),
      ])
+
+# ---------------------------------------------------------------- abstract-machine units ---
+INS = "src/instruction.rs"
+CF = "src/instruction/control_flow/"
+S0 = "old(interpreter).st@"
+S9 = "final(interpreter).st@"
+
+unit(id="iws.exec", src=INS, path=[("impl", "Exec for InstructionWithStr"), ("fn", "exec")],
+     impl="InstructionWithStr",
+     ensures=[
+         ("iws.exec.delegates", ["C07", "C12"],
+          f"r == eval_res(self.instruction, {S0}) && {S9} == eval_st(self.instruction, {S0})"),
+     ])
+
+COND = f"eval_res(self.condition.instruction, {S0})"
+COND_ST = f"eval_st(self.condition.instruction, {S0})"
+unit(id="ifelse.exec", src=CF + "if_else.rs", path=[("impl", "Exec for IfElse"), ("fn", "exec")],
+     impl="IfElse", stubs=["iws.exec"],
+     requires=[f"{COND} is Ok ==> {COND}->Ok_0 is Bool"],
+     ensures=[
+         ("ifelse.exec.condition_error_stops", ["C07", "C12"],
+          f"{COND} is Err ==> r == {COND} && {S9} == {COND_ST}"),
+         ("ifelse.exec.true_runs_first_branch_only", ["C07", "C12"],
+          f"{COND} == Ok::<Variable, ExecStop>(Variable::Bool(true)) ==> "
+          f"r == eval_res(self.if_true.instruction, {COND_ST}) && {S9} == eval_st(self.if_true.instruction, {COND_ST})"),
+         ("ifelse.exec.false_runs_second_branch_only", ["C07", "C12"],
+          f"{COND} == Ok::<Variable, ExecStop>(Variable::Bool(false)) ==> "
+          f"r == eval_res(self.if_false.instruction, {COND_ST}) && {S9} == eval_st(self.if_false.instruction, {COND_ST})"),
+     ])
